@@ -72,7 +72,7 @@ Definition hint_shuffles (h : hints) : shuffles :=
 
 Inductive case :=
 | CImport (before : cat) (ev : event) (h : hints) (ops : list op) (err : N) (after : cat)
-| CExport (peer : string) (peer_known : bool) (entry : list (string * list string)) (typical connect chains : list string)
+| CExport (peer : string) (peer_known : bool) (entry : list (string * list string)) (typical connect chains tgw : list string)
           (bad_chains : list string) (got_svcs got_chains : list string).
 
 Definition err_code (e : option N) : N := match e with None => 0 | Some n => n end.
@@ -85,11 +85,11 @@ Definition check (c : case) : bool :=
   | CImport before ev h ops err after =>
       let r := run_import before ev h in
       N.eqb (err_code (h_err r)) err && perm_eqb op_eqb (h_ops r) ops && cat_eqb (h_cat r) after
-  | CExport peer known entry typical connect chains bad got_svcs got_chains =>
+  | CExport peer known entry typical connect chains tgw bad got_svcs got_chains =>
       (* ExportedServicesForPeer returns an empty list for an unknown peering id *)
       if negb known then match got_svcs, got_chains with [], [] => true | _, _ => false end else
       perm_eqb seqb (exported_services peer entry typical) got_svcs
-      && perm_eqb seqb (exported_chains peer entry typical connect chains []
+      && perm_eqb seqb (exported_chains peer entry typical connect chains tgw
                                         (fun s => negb (existsb (seqb s) bad))) got_chains
   end.
 
